@@ -15,7 +15,7 @@ def strip_ops(ops):
 class C03(Prop):
     id = "C03"
     lean_module = "ProductMD.Properties.C03"
-    quick_budget = 1500
+    quick_budget = 1100
     thorough_budget = 24000
     rule = ("manifest = compose section + history of add calls (mostly valid, some refused) built on the real class; real dumps() bytes "
             "= model bytes; loads() into a fresh object: mapping, compose section and header version = model's re-read manifest; "
@@ -45,6 +45,12 @@ class C03(Prop):
             k = kinds[i % 3]
             f = FORMATS[k]
             steps = f.gen_ops(rng, tier, n=rng.choice([1, 2, 4, 6]), valid_only=rng.random() < 0.7)
+            if k == "extra_files" and rng.random() < 0.7:
+                # a per-tree export whose base REALLY prefixes stored paths, before the dump/load comparison
+                adds = [st for st in steps if st.get("why") in ("valid", "repeat") and "/" in st["path"]]
+                for _ in range(rng.choice([1, 1, 2])):
+                    if adds:
+                        steps.insert(rng.randint(steps.index(adds[0]) + 1, len(steps)), mc.tree_call(rng, rng.choice(adds), [""], force="match"))
             steps.append({"call": "dumps"})
             for _ in range(rng.choice([1, 2, 3, 5])):
                 r = rng.random()
@@ -55,7 +61,12 @@ class C03(Prop):
                 elif r < 0.6:
                     steps.append({"call": "loads_other"})
                 elif r < 0.85:
-                    steps.extend(f.gen_ops(rng, tier, n=rng.choice([1, 2, 3]), valid_only=rng.random() < 0.7))
+                    more = f.gen_ops(rng, tier, n=rng.choice([1, 2, 3]), valid_only=rng.random() < 0.7)
+                    steps.extend(more)
+                    if k == "extra_files" and rng.random() < 0.4:
+                        adds = [st for st in more if st.get("why") in ("valid", "repeat") and "/" in st["path"]]
+                        if adds:
+                            steps.append(mc.tree_call(rng, rng.choice(adds), [""], force="match"))
                 else:
                     steps.append({"call": "dumps"})
             steps.append({"call": "dumps"})
@@ -87,6 +98,8 @@ class C03(Prop):
                 elif call == "loads_other":
                     obj.loads(other_text)
                     out = {"ok": None}
+                elif call == "dump_for_tree":
+                    out = {"ok": f_extra.dump_for_tree(obj, st["variant"], st["arch"], st["basepath"])}
                 else:
                     f.add(obj, st)
                     out = {"ok": None}
@@ -150,6 +163,7 @@ class C03(Prop):
         f = FORMATS[a["kind"]]
         prev = {"version": "0.0", "compose": a["compose"], "payload": {}}
         dumped = None
+        expected = {}           # the mapping the add calls (and loads) so far determine - NOT what the object holds
 
         def bad(i, st, kind, observed, required):
             return {"kind": kind, "required": required,
@@ -161,7 +175,14 @@ class C03(Prop):
                     return bad(i, st, "cycle-raised", out["err"], "dumps succeeds")
                 if cur["payload"] != prev["payload"] or cur["compose"] != prev["compose"]:
                     return bad(i, st, "dumps-changed-state", {"before": prev, "after": cur}, "dumps() leaves mapping and compose unchanged")
-                dumped = cur
+                if cur["payload"] != expected:
+                    return bad(i, st, "held-mapping-differs-from-calls", {"added": expected, "held": cur["payload"]},
+                               "the manifest that is written is what the add calls filed")
+                dumped = {"version": cur["version"], "compose": cur["compose"], "payload": copy.deepcopy(expected)}
+            elif call == "dump_for_tree":
+                if cur["payload"] != expected:
+                    return bad(i, st, "export-changed-manifest", {"added": expected, "held_after_export": cur["payload"]},
+                               "a per-tree export leaves the manifest as the add calls filed it")
             elif call in ("loads_own", "loads_other"):
                 src = dumped if call == "loads_own" else real_out["other"]
                 if src is None:
@@ -174,10 +195,12 @@ class C03(Prop):
                                "after loads the mapping is exactly the loaded document's (whatever the object held before)")
                 if cur["compose"] != mc.norm_compose(src["compose"]):
                     return bad(i, st, "compose-changed", {"document": src["compose"], "after": cur["compose"]}, mc.norm_compose(src["compose"]))
+                expected = copy.deepcopy(src["payload"])
             else:
-                b = f.oracle_step(prev["payload"], cur["payload"], st, out)
+                b = f.oracle_step(expected, cur["payload"], st, out)
                 if b is not None and b["kind"] in ("frame-or-content", "wrong-key", "refusal-changed-state"):
                     return bad(i, st, "built-mapping-differs-from-calls", b["observed"], b["required"])
+                expected = copy.deepcopy(cur["payload"])
                 if cur["compose"] != prev["compose"]:
                     return bad(i, st, "add-changed-compose", {"before": prev["compose"], "after": cur["compose"]}, "add leaves the compose section alone")
             prev = cur
